@@ -873,7 +873,42 @@ fn get_meta_info(
         None,
     )?;
 
+    if info.enabled == Some(false)
+        && [
+            info.forward,
+            info.owned,
+            info.ref_,
+            info.ref_mut,
+            info.source,
+            info.backtrace,
+        ]
+        .iter()
+        .any(Option::is_some)
+    {
+        return Err(Error::new(
+            attr.span(),
+            "Attribute parameter `ignore` cannot be combined with other parameters",
+        ));
+    }
+
     Ok(info)
+}
+
+/// Sets the `slot` of an attribute parameter, erroring if it has been specified already (either
+/// the same way, or the opposite one via `not(...)`).
+fn set_meta_param(
+    slot: &mut Option<bool>,
+    value: bool,
+    span: proc_macro2::Span,
+    name: &str,
+) -> Result<()> {
+    if slot.replace(value).is_some() {
+        return Err(Error::new(
+            span,
+            format!("Attribute parameter `{name}` is specified multiple times or contradictory"),
+        ));
+    }
+    Ok(())
 }
 
 fn parse_punctuated_nested_meta(
@@ -917,9 +952,15 @@ fn parse_punctuated_nested_meta(
 
                 let attr_name = path.get_ident().unwrap().to_string();
                 match (wrapper_name, attr_name.as_str()) {
-                    (None, "owned") => info.owned = Some(true),
-                    (None, "ref") => info.ref_ = Some(true),
-                    (None, "ref_mut") => info.ref_mut = Some(true),
+                    (None, "owned") => {
+                        set_meta_param(&mut info.owned, true, path.span(), "owned")?
+                    }
+                    (None, "ref") => {
+                        set_meta_param(&mut info.ref_, true, path.span(), "ref")?
+                    }
+                    (None, "ref_mut") => {
+                        set_meta_param(&mut info.ref_mut, true, path.span(), "ref_mut")?
+                    }
 
                     #[cfg(any(feature = "from", feature = "into"))]
                     (None, "types")
@@ -1013,17 +1054,40 @@ fn parse_punctuated_nested_meta(
                 }
 
                 let attr_name = path.get_ident().unwrap().to_string();
+                let span = path.span();
                 match (wrapper_name, attr_name.as_str()) {
-                    (None, "ignore") => info.enabled = Some(false),
-                    (None, "forward") => info.forward = Some(true),
-                    (Some("not"), "forward") => info.forward = Some(false),
-                    (None, "owned") => info.owned = Some(true),
-                    (None, "ref") => info.ref_ = Some(true),
-                    (None, "ref_mut") => info.ref_mut = Some(true),
-                    (None, "source") => info.source = Some(true),
-                    (Some("not"), "source") => info.source = Some(false),
-                    (None, "backtrace") => info.backtrace = Some(true),
-                    (Some("not"), "backtrace") => info.backtrace = Some(false),
+                    (None, "ignore") => {
+                        // `enabled` is pre-set to `Some(true)` by the mere presence of the
+                        // attribute, so only a repeated `ignore` is detectable here.
+                        let mut repeated = (info.enabled == Some(false)).then_some(false);
+                        set_meta_param(&mut repeated, false, span, "ignore")?;
+                        info.enabled = Some(false)
+                    }
+                    (None, "forward") => {
+                        set_meta_param(&mut info.forward, true, span, "forward")?
+                    }
+                    (Some("not"), "forward") => {
+                        set_meta_param(&mut info.forward, false, span, "forward")?
+                    }
+                    (None, "owned") => {
+                        set_meta_param(&mut info.owned, true, span, "owned")?
+                    }
+                    (None, "ref") => set_meta_param(&mut info.ref_, true, span, "ref")?,
+                    (None, "ref_mut") => {
+                        set_meta_param(&mut info.ref_mut, true, span, "ref_mut")?
+                    }
+                    (None, "source") => {
+                        set_meta_param(&mut info.source, true, span, "source")?
+                    }
+                    (Some("not"), "source") => {
+                        set_meta_param(&mut info.source, false, span, "source")?
+                    }
+                    (None, "backtrace") => {
+                        set_meta_param(&mut info.backtrace, true, span, "backtrace")?
+                    }
+                    (Some("not"), "backtrace") => {
+                        set_meta_param(&mut info.backtrace, false, span, "backtrace")?
+                    }
                     _ => {
                         return Err(Error::new(
                             path.span(),
